@@ -289,7 +289,7 @@ func c20Join(ps []c20Part) string {
 func c20GeneratedSite(r *Rng, n int, a, b, cc string, ctxs []func(e string, n int) string) c20Site {
 	vars := []string{a, b, cc}
 	none := map[int]int{}
-	switch r.Intn(4) {
+	switch r.Intn(6) {
 	case 0: // 14: comparison / logical operator between two different operands
 		t := c20GenTerm(r, vars, 1)
 		t2, kind := c20Mutate(r, t, vars)
@@ -311,6 +311,48 @@ func c20GeneratedSite(r *Rng, n int, a, b, cc string, ctxs []func(e string, n in
 		t := c20GenChain(r, vars, 1, true)
 		t2, kind := c20Mutate(r, t, vars)
 		return c20Site{Text: fmt.Sprintf("%s = %s", c20Join(t), c20Join(t2)), Expect: none, Label: "generated-near-self-assign|differs-in-" + kind}
+	case 4: // 13: generated parameter lists, placeholders `_` anywhere
+		pool := []string{"p", "q", "r", "s", "_", "_"}
+		k := r.Range(2, 6)
+		var ps []string
+		cnt := map[string]int{}
+		for j := 0; j < k; j++ {
+			x := r.Pick(pool)
+			ps = append(ps, x)
+			cnt[x]++
+		}
+		if r.Bool() {
+			ps = append(ps, "...")
+		}
+		dups, more := 0, false
+		for nme, n := range cnt {
+			if nme == "_" {
+				continue
+			}
+			if n == 2 {
+				dups++
+			} else if n > 2 {
+				more = true
+			}
+		}
+		exp := map[int]int{}
+		label := "generated-params-distinct"
+		switch {
+		case more || dups > 1:
+			exp[13] = expDC // how often a name repeated three times, or two different repeated names, are reported is not specified
+			label = "dc-generated-params-several-repeats"
+		case dups == 1:
+			exp[13] = 1
+			label = "generated-params-one-repeat"
+			if cnt["_"] > 0 {
+				label = "generated-params-one-repeat-with-placeholders"
+			}
+		}
+		if cnt["_"] > 1 && exp[13] == 0 {
+			label = "generated-params-placeholders-only-repeat"
+		}
+		form := r.Pick([]string{"local function gp%d(%s) return 1 end", "ggp%d = function(%s) return 1 end", "sink(%d, function(%s) return 2 end)"})
+		return c20Site{Text: fmt.Sprintf(form, n, strings.Join(ps, ", ")), Expect: exp, Label: label}
 	default: // 20, pairwise
 		t := c20GenChain(r, vars, 1, true)
 		t2, kind := c20Mutate(r, t, vars)
